@@ -31,7 +31,7 @@ fn query_with(n: u8) -> IterativeQuery {
 }
 
 //@ ob: C07.O1
-//@ tier: quick
+//@ tier: thorough
 //@ cap: 2400
 //@ standins: tracing vcoll
 //@ desc: closest_candidates() is exactly the not-yet-visited addresses among the first min(20, len) entries of the candidate list, in that order: with 22 ordered candidates and a symbolic visited subset of {0, 10, 19, 20, 21}, candidates 20 and 21 are never proposed, visited ones are never proposed again, every other one of the first 20 is
@@ -74,7 +74,7 @@ fn c07_o1_closest_candidates() {
 }
 
 //@ ob: C07.O2
-//@ tier: quick
+//@ tier: thorough
 //@ cap: 2400
 //@ standins: tracing vcoll
 //@ desc: visit_closest() sends exactly one request to each unvisited candidate among the closest, marks it visited and tracks its transaction id; afterwards closest_candidates() is empty and a second visit_closest() sends nothing (an address is never queried twice by one lookup), even if the same node is offered again as a candidate
@@ -111,8 +111,10 @@ fn c07_o2_visit_closest_once() {
 }
 
 //@ ob: C07.O3
+//@ rss: 0.6
+//@ time: 41
 //@ tier: quick
-//@ cap: 2400
+//@ cap: 800
 //@ standins: tracing vcoll
 //@ also: C06
 //@ desc: completion: is_done() is true exactly when none of the lookup's requests is still unexpired and unanswered (so a lookup is only declared done after every contacted node answered or timed out); a lookup with no requests is done
